@@ -504,14 +504,13 @@ fn run_strings(rep: &Reporter, maxlen: usize) -> (u64, u64) {
 
 pub fn run(rep: &Reporter) -> Coverage {
     let oracle = C03 { lookups: AtomicU64::new(0) };
-    // the history part uses one level less than C01/C02: every state carries ~10^3 lookups and four probes
+    // the history part uses the explorations of C01/C02 (every state carries ~10^3 lookups and four probes)
     let mut cov = {
         let mut cov = Coverage::default();
         let mut runs = Vec::new();
         let budget = rep.tier.pick(40.0, 1200.0);
         let mut exhaustive = true;
-        for mut plan in plans(rep.tier) {
-            plan.depth -= 1; // ~2000 lookups and four probes per state
+        for plan in plans(rep.tier) {
             let stats = explore(rep, &oracle, &plan.init, &plan.al, plan.depth, budget);
             cov.states += stats.states;
             cov.transitions += stats.transitions;
